@@ -1,7 +1,7 @@
 (* Entry.v — single extracted entry point [run]: request = VList [VStr name; arg].
    All marshalling is done here in Gallina so that ocaml/driver.ml stays generic. *)
 From Coq Require Import ZArith List Bool String Ascii.
-From Verif Require Import PyStr Normalize NormalizeGen Util UtilGen Toc TocGen Footnote FootnoteGen Cli CliGen StoreGen Rx UnicodeGen RxGen Scanner.
+From Verif Require Import PyStr Normalize NormalizeGen Util UtilGen Toc TocGen Footnote FootnoteGen Cli CliGen StoreGen Rx UnicodeGen RxGen Scanner RefLinks.
 Import ListNotations.
 Open Scope Z_scope.
 
@@ -131,6 +131,19 @@ Definition run_named (name : str) (arg : pval) : pval :=
         | Some (nm, r) => VList [VStr nm; enc_match (Some r)]
         | None => VNone
         end
+    | _ => VErr "arg" end
+  else if is_name name "ref_resolve" then
+    match arg with
+    | VList [VList defs; VList uses] =>
+      let ds := flat_map (fun v => match v with
+                                   | VList [VStr l; VStr u; VStr t] => [{| ld_label := l; ld_url := u; ld_title := Some t |}]
+                                   | VList [VStr l; VStr u; VNone] => [{| ld_label := l; ld_url := u; ld_title := None |}]
+                                   | _ => [] end) defs in
+      let us := flat_map (fun v => match v with VStr s => [s] | _ => [] end) uses in
+      VList (map (fun o => match o with
+                           | Some d => VList [VStr (ld_url d); match ld_title d with Some t => VStr t | None => VNone end]
+                           | None => VNone end)
+                 (resolve_all (run_unikey T unikey_ops) ds us))
     | _ => VErr "arg" end
   else VErr "unknown function".
 
